@@ -22,16 +22,18 @@ def tu():
 
 PRE_STUB = '''
 /* the same text is used where the contract is enforced (this group) and where it replaces a call */
-#define IT_PRE(it, count) (__CPROVER_r_ok(it, sizeof(*(it))) && g_n <= MAXN && OFF((it)->data) + (count) <= g_n \\
-   && __CPROVER_r_ok((it)->data, count) && (it)->line >= 1 && (it)->column >= 1 \\
-   && (it)->byte < ((size_t)1<<63) && (it)->line < ((size_t)1<<63) && (it)->column < ((size_t)1<<63))
+/* the window is the object g_buf of exactly g_n bytes (allocated by the harness): arithmetic facts only, so that the
+   clause can also be discharged for a cursor that a stub has just havocked */
+#define IT_PRE_WIN(it, count) (__CPROVER_r_ok(it, sizeof(*(it))) && g_n <= MAXN && __CPROVER_same_object((it)->data, g_buf) && OFF((it)->data) + (count) <= g_n && OFF(g_buf) == 0)
+#define IT_PRE_CNT(it) ((it)->line >= 1 && (it)->column >= 1 && (it)->byte < ((size_t)1<<63) && (it)->line < ((size_t)1<<63) && (it)->column < ((size_t)1<<63))
+#define IT_PRE(it, count) (IT_PRE_WIN(it, count) && IT_PRE_CNT(it))
 #define ADVANCED(it, count) (__CPROVER_same_object((it)->data, OLD((it)->data)) && OFF((it)->data) == OFF(OLD((it)->data)) + (count) \\
    && (it)->byte == OLD((it)->byte) + (count))
 '''
 
 PRE = '''
 #include "spec_enc.h"
-size_t g_n; _Bool vf_canary;
+size_t g_n; _Bool vf_canary; const char* g_buf;
 #define MAXN %d
 #define OFF(p) __CPROVER_POINTER_OFFSET(p)
 #define OLD(x) __CPROVER_old(x)
@@ -44,7 +46,7 @@ size_t w_n, w_k, w_count, w_line, w_col; int w_ch; unsigned char w_b[8];
 int main(void)
 {
   __CPROVER_assume(g_n <= MAXN);
-  char* buf = malloc(g_n); __CPROVER_assume(buf != 0);
+  char* buf = malloc(g_n); __CPROVER_assume(buf != 0); g_buf = buf;
   size_t k, count; int ch;
   __CPROVER_assume(k <= g_n && count <= g_n - k %s);
   struct S_inputerator_T it;
@@ -62,7 +64,7 @@ int main(void)
 def bump_small_contract(canary=True):
     """internal::bump for count <= 8 against the spec fold vf_pos_line / vf_pos_col"""
     c = Contract(
-        R('count <= 8 && IT_PRE(iter, count)', 'bump-pre', ('C03', 'C06')),
+        R('count <= 8 && IT_PRE_WIN(iter, count)', 'bump-pre', ('C03', 'C06')), R('IT_PRE_CNT(iter)', 'bump-pre-counters', ('C06',)),
         A('*iter, iter->data, iter->byte, iter->line, iter->column'),
         E('ADVANCED(iter, count)', 'BUMP-ADV', ('C06', 'C03')),
         E('iter->line == vf_pos_line(OLD(iter->data), count, OLD(iter->line), ch)', 'BUMP-LINE', ('C06',)),
@@ -75,7 +77,7 @@ def bump_small_contract(canary=True):
 
 def itl_contract(canary=True):
     c = Contract(
-        R('IT_PRE(iter, count)', 'bump-pre', ('C03', 'C06')),
+        R('IT_PRE_WIN(iter, count)', 'bump-pre', ('C03', 'C06')), R('IT_PRE_CNT(iter)', 'bump-pre-counters', ('C06',)),
         A('*iter, iter->data, iter->byte, iter->line, iter->column'),
         E('ADVANCED(iter, count)', 'BUMP-ADV', ('C06', 'C03')),
         E('iter->line == OLD(iter->line) && iter->column == OLD(iter->column) + count', 'BUMP-ITL', ('C06',)),
@@ -87,7 +89,7 @@ def itl_contract(canary=True):
 
 def tnl_contract(canary=True):
     c = Contract(
-        R('IT_PRE(iter, count)', 'bump-pre', ('C03', 'C06')),
+        R('IT_PRE_WIN(iter, count)', 'bump-pre', ('C03', 'C06')), R('IT_PRE_CNT(iter)', 'bump-pre-counters', ('C06',)),
         A('*iter, iter->data, iter->byte, iter->line, iter->column'),
         E('ADVANCED(iter, count)', 'BUMP-ADV', ('C06', 'C03')),
         E('iter->line == OLD(iter->line) + 1 && iter->column == 1', 'BUMP-TNL', ('C06',)),
